@@ -77,6 +77,7 @@ def brute_force(got, pieces):
 
 class EllipsisSpec(Spec):
     prop = 'C06'
+    case_timeout = 1800          # one case = one shard of many evaluations
     batch = 1
     title = '_ellipsis_match vs the brute-force definition'
 
@@ -139,6 +140,7 @@ class EllipsisSpec(Spec):
 
 class CheckOutputSpec(Spec):
     prop = 'C06'
+    case_timeout = 1800          # one case = one shard of many evaluations
     batch = 1
     title = 'check_output under +/-ELLIPSIS with all other leniencies off'
 
@@ -210,6 +212,7 @@ class CheckOutputSpec(Spec):
 
 
 class ManyMarkersSpec(Spec):
+    case_timeout = 1800          # one case = one shard of many evaluations
     """The token bound above stops at 5-6 markers.  This family is deep in the *number of markers* instead:
     want = p0 ... p1 ... p2 ... pn with n markers, inner pieces over {a, b}, end pieces over {'', a, b}."""
     prop = 'C06'
